@@ -7,7 +7,7 @@ import numpy as np
 from simkit import engine_world as W
 from simkit.core import EventLog, Violations, canon, sha, tree_digest
 
-RUN_CAP_S = 180
+RUN_CAP_S = 900
 
 
 def gen_plan(rng, tier: str, idx: int) -> dict:
